@@ -33,7 +33,8 @@ type Worker struct {
 	point    string      // where it is parked
 	enabled  func() bool // nil = always
 	parked   bool
-	done     bool
+	done     bool // set by the scheduler when it receives the worker's last event
+	exited   bool // set by the worker goroutine just before that event
 	blocked  bool // granted, but stuck in a real lock/channel wait
 	running  bool
 	Panic    interface{}
@@ -186,8 +187,9 @@ func (s *Sched) Run(ch Chooser) (string, error) {
 					buf := make([]byte, 8192)
 					w.PanicStk = string(buf[:runtime.Stack(buf, false)])
 				}
-				w.done = true
-				w.point = "done"
+				// the scheduler learns of the exit through the event only: if it read a flag written here, a worker
+				// finishing between two of its checks could look like "nobody can run, nobody is blocked"
+				w.exited = true
 				s.ev <- w
 			}()
 			// initial park
@@ -317,6 +319,10 @@ func (s *Sched) Run(ch Chooser) (string, error) {
 func (s *Sched) arrived(w *Worker) {
 	w.running = false
 	w.blocked = false
+	if w.exited {
+		w.done = true
+		w.point = "done"
+	}
 	if !w.done {
 		w.parked = true
 	}
